@@ -21,6 +21,13 @@ the property fixes – `Props/C08.lean`, for every history satisfying `RefSt.Pro
 * `file`, `node`: only the part the property fixes – the positions the reference still needs
   (peaks, Merkle-path siblings of unspent leaves: path/peak clauses) must not read `None` and must
   read the reference hash; which other positions read `None` is internal (`cmpModel`).
+* `covered` (which of the leaves a permitted rewind can still make unspent lie in a pruned subtree
+  of the prune list on disk): the value is `[]` – `protected_never_pruned` (block-level histories:
+  compaction cutoff = a committed boundary, `rewind_rm_pos` = everything spent after it);
+* `disk` (length and digest of hash file, data file, size file): between two `disk` lines with no
+  `sync` / `compact` / `new` in between the files must not change – appends, removals and rewinds
+  only touch memory and `discard` writes nothing (`unit_disk_untouched`, `unit_discard`); the first
+  `disk` line after a write is compared with the model only.
 `cmpModel` only: `usize_mid` (inside a unit the theorem says nothing about `unpruned_size`),
 `sizes`, `prunelist`, the `pl_*` stream, the acknowledgements of `new`/`sync`/`discard`/
 `compact`/`reopen`, and the whole out-of-protocol `x*` stream. -/
@@ -52,6 +59,9 @@ structure St where
   sizeC : Nat := 0
   /-- state of the direct `PruneList` stream -/
   pl : PruneList := {}
+  /-- the last `disk` answer of the implementation, while nothing has been allowed to write to the
+  files since (`none` after `new` / `sync` / `compact`) -/
+  lastDisk : Option String := none
 
 def showPl (pl : PruneList) : String :=
   s!"{showNatList pl.bitmap} {showNatList pl.shiftCache} {showNatList pl.leafShiftCache}"
@@ -144,12 +154,14 @@ def handle (st : St) (args : List String) (impl : String) : St × Verdict :=
       ({ st with ref := r, pm := pm }, cmp2 (toString r.hashes.length) (toString pm.size) impl)
     | _, _ => (st, .unknown)
   | ["sync"] =>
-    ({ st with pm := { st.pm with b := st.pm.b.sync }, refC := st.ref, sizeC := st.pm.size }, cmpModel "ok" impl)
+    ({ st with pm := { st.pm with b := st.pm.b.sync }, refC := st.ref, sizeC := st.pm.size,
+               lastDisk := none }, cmpModel "ok" impl)
   | ["discard"] =>
     ({ st with pm := { b := st.pm.b.discard, size := st.sizeC }, ref := st.refC }, cmpModel "ok" impl)
   | ["compact", cutoff, rm] => match nat? cutoff, parseNatList rm with
     | some cutoff, some rm =>
-      ({ st with pm := { st.pm with b := st.pm.b.checkCompact el cutoff (Bm.ofList rm) } }, cmpModel "ok" impl)
+      ({ st with pm := { st.pm with b := st.pm.b.checkCompact el cutoff (Bm.ofList rm) },
+                 lastDisk := none }, cmpModel "ok" impl)
     | _, _ => (st, .unknown)
   | ["reopen"] =>
     ({ st with pm := { st.pm with b := st.pm.b.reopen el } }, cmpModel "ok" impl)
@@ -244,6 +256,23 @@ def handle (st : St) (args : List String) (impl : String) : St × Verdict :=
       match (neededPos size st.ref.unspent).find? (fun p => nones.elem p) with
       | some p => (st, .fail s!"position {p} is needed by the reference but reads None")
       | none => (st, .ok)
+  | ["covered", ps] => match parseNatList ps with
+    | some ps =>
+      let pl := PruneList.openBm st.pm.b.pruneFile
+      (st, cmp2 "[]" (showNatList (ps.filter fun p => pl.isPruned p)) impl)
+    | none => (st, .unknown)
+  | ["disk"] =>
+    let part (b : Bytes) : String := s!"{b.length} {toHex (h256 b)}"
+    let hashPart := part st.pm.b.hashFile.disk.flatten
+    let model := match st.pm.b.dataFile with
+      | .fixed f => s!"{hashPart} {part f.disk.flatten} 0 -"
+      | .var v =>
+        let sz := v.sizeFile.disk.flatMap fun e => beBytes 8 e.1 ++ beBytes 2 e.2
+        s!"{hashPart} {part v.disk} {part sz}"
+    let v := match st.lastDisk with
+      | some spec => cmp2 spec model impl
+      | none => cmpModel model impl
+    ({ st with lastDisk := some impl }, v)
   | ["prunelist"] =>
     -- `PruneList::open` on the prune file of the directory
     let pl := PruneList.openBm st.pm.b.pruneFile
